@@ -47,6 +47,53 @@ def run_threaded(sc):
         p['rx_flowcontrol_timeout'] = BIG_TIMEOUT_MS
         p['rx_consecutive_frame_timeout'] = BIG_TIMEOUT_MS
 
+    # schedule perturbation at the synchronisation points of the threaded layer: the `threading.Event` and `queue.Queue`
+    # objects that isotp.protocol creates from now on (per-request completion events, ...) yield the CPU for a moment right
+    # AFTER set() / clear() / put() with some probability, which exposes orderings such as "event signalled before the
+    # outcome is stored" or "completion cleared after the request was published" that free-running threads almost never hit
+    restore = []
+    if sc.get('perturb'):
+        import isotp.protocol as proto
+        prng = random.Random(sc['seed'] ^ 0x5EED)
+        plock = threading.Lock()
+
+        def nap():
+            with plock:
+                go = prng.random() < sc['perturb']
+            if go:
+                time.sleep(0.003)
+
+        class PEvent(threading.Event):
+            quiet = False       # the layer's own lifecycle events are made quiet below: only per-request events perturb
+
+            def set(self):
+                threading.Event.set(self)
+                if not self.quiet:
+                    nap()
+
+            def clear(self):
+                threading.Event.clear(self)
+                if not self.quiet:
+                    nap()
+
+        class PQueue(queue.Queue):
+            def put(self, item, *a, **k):
+                r = queue.Queue.put(self, item, *a, **k)
+                if hasattr(item, 'complete_event'):      # a send request being published (not bus frames / payloads)
+                    nap()
+                return r
+
+        class Shim:
+            def __init__(self, mod, **over):
+                self._mod = mod
+                self.__dict__.update(over)
+
+            def __getattr__(self, n):
+                return getattr(self._mod, n)
+        restore = [('threading', proto.threading), ('queue', proto.queue)]
+        proto.threading = Shim(threading, Event=PEvent)
+        proto.queue = Shim(queue, Queue=PQueue)
+
     if kind in ('queue_blocking', 'queue_legacy'):
         q = {0: queue.Queue(), 1: queue.Queue()}     # q[i]: frames travelling to layer i
 
@@ -110,6 +157,12 @@ def run_threaded(sc):
             except Exception:
                 pass
 
+    if sc.get('perturb'):
+        for L in layers:
+            for v in vars(L.events).values():
+                if isinstance(v, threading.Event):
+                    v.quiet = True
+
     layer_lines = []
     for i, (L, ad) in enumerate(zip(layers, (a, b))):
         threadrun.instrument(rec, i, L)
@@ -127,7 +180,7 @@ def run_threaded(sc):
             threadrun._tl.cur_id = rid
             try:
                 if layers[i].params.blocking_send:
-                    layers[i].send(bytearray(payload), send_timeout=45)
+                    layers[i].send(bytearray(payload), send_timeout=20)
                 else:
                     layers[i].send(bytearray(payload))
             except Exception as e:
@@ -197,6 +250,10 @@ def run_threaded(sc):
             except Exception:
                 pass
     alive = [t.name for t in threads if t.is_alive()]
+    if restore:
+        import isotp.protocol as proto
+        for name, val in restore:
+            setattr(proto, name, val)
     li, lo = threadrun.build_lines(rec, layer_lines)
     sc['_result'] = {'received': received, 'errors': errors, 'send_exc': send_exc, 'stuck_senders': alive, 'stop_s': stop_s,
                      'steps': len(rec.log)}
@@ -248,7 +305,8 @@ class C13(PropBase):
                     items.append((rid, body))
                 senders[side].append(items)
         return {'ops': [], 'seed': rng.randrange(1 << 30), 'transport': transport, 'addrs': (a, b), 'params': (pa, pb), 'senders': senders,
-                'latency': rng.choice([0, 0, 0.0005, 0.002]), 'read_timeout': rng.choice([0.005, 0.05, 0.2]), 'noise': rng.random() < 0.5}
+                'latency': rng.choice([0, 0, 0.0005, 0.002]), 'read_timeout': rng.choice([0.005, 0.05, 0.2]), 'noise': rng.random() < 0.5,
+                'perturb': rng.choice([0, 0.3, 0.6])}
 
     def run_impl(self, sc):
         return run_threaded(sc)
